@@ -5,6 +5,8 @@ package remote
 
 import (
 	"fmt"
+	"os"
+	"strconv"
 	"strings"
 	"time"
 
@@ -12,6 +14,10 @@ import (
 	"github.com/anthdm/hollywood/cluster"
 	hremote "github.com/anthdm/hollywood/remote"
 	"google.golang.org/protobuf/proto"
+	"google.golang.org/protobuf/reflect/protodesc"
+	"google.golang.org/protobuf/reflect/protoreflect"
+	"google.golang.org/protobuf/types/descriptorpb"
+	"google.golang.org/protobuf/types/dynamicpb"
 
 	"verif/harness/core"
 	simnet "verif/sim/simnet"
@@ -49,9 +55,32 @@ type World struct {
 	rc    *core.RunCtx
 	seq   int
 	nodes map[int]*Node
+	alias map[int]bool // senders address this node by another spelling of its address
 }
 
 func (w *World) tick() int { w.seq++; return w.seq }
+
+// dest is the address senders put into PIDs for node n.
+func (w *World) dest(n int) string {
+	if w.alias[n] {
+		return fmt.Sprintf("node%d.sim:4000", n)
+	}
+	return addrOf(n)
+}
+
+// useAlias makes every sender address node n by a name that reaches the same
+// listener but differs textually from the engine's own address.
+func (w *World) useAlias(n int) {
+	if w.alias == nil {
+		w.alias = map[int]bool{}
+	}
+	w.alias[n] = true
+	if simnet.Net().Aliases == nil {
+		simnet.Net().Aliases = map[string]string{}
+	}
+	simnet.Net().Aliases[w.dest(n)] = addrOf(n)
+	simrt.Fault("address-alias")
+}
 
 func addrOf(n int) string { return fmt.Sprintf("10.0.0.%d:4000", n) }
 
@@ -202,9 +231,29 @@ func (s sendOp) String() string {
 
 type badValue struct{ X int }
 
+// unknownTypeMsg is a well-formed protobuf message of a type that is not in
+// the global type registry (nodes built from different binaries): the sender
+// serializes it, the receiving node's reader cannot find the type and ends
+// the stream with an error while the connection stays open.
+func unknownTypeMsg() proto.Message {
+	fdp := &descriptorpb.FileDescriptorProto{
+		Name: proto.String("verif_unknown.proto"), Package: proto.String("verifx"), Syntax: proto.String("proto3"),
+		MessageType: []*descriptorpb.DescriptorProto{{Name: proto.String("OnlyTheSenderKnows"),
+			Field: []*descriptorpb.FieldDescriptorProto{{Name: proto.String("s"), Number: proto.Int32(1), JsonName: proto.String("s"),
+				Type: descriptorpb.FieldDescriptorProto_TYPE_STRING.Enum(), Label: descriptorpb.FieldDescriptorProto_LABEL_OPTIONAL.Enum()}}}},
+	}
+	fd, err := protodesc.NewFile(fdp, nil)
+	if err != nil {
+		panic(err)
+	}
+	m := dynamicpb.NewMessage(fd.Messages().Get(0))
+	m.Set(fd.Messages().Get(0).Fields().Get(0), protoreflect.ValueOfString("x"))
+	return m
+}
+
 func (w *World) doSend(s sendOp) {
 	nd := w.nodes[s.from]
-	pid := actor.NewPID(addrOf(s.to), s.target)
+	pid := actor.NewPID(w.dest(s.to), s.target)
 	var payload any
 	switch s.kind {
 	case -1:
@@ -244,6 +293,20 @@ func crashClause(rc *core.RunCtx, res *simrt.Result, props ...string) {
 	if res.EndReason == "steps" {
 		rc.Block("step budget exhausted")
 	}
+}
+
+// livelockClause is crashClause for fault-free scenarios with a finite
+// workload: there the system must come to rest. Those runs take a few hundred
+// to a few thousand scheduling steps; still being busy after the whole budget
+// (hundreds of times that; margin measured with VERIF_STEPS_DIV) means work is
+// circulating without end - e.g. a message passed from connection to
+// connection and never delivered.
+func livelockClause(rc *core.RunCtx, res *simrt.Result, props ...string) {
+	if res.EndReason == "steps" && (res.Crash == nil || res.Crash.Harness) {
+		rc.Violate("never-quiescent", "finite fault-free workload, but the system was still busy after %d scheduling steps and %v of simulated time", res.Steps, time.Duration(res.SimNanos))
+		return
+	}
+	crashClause(rc, res, props...)
 }
 
 // senderPool: nil, equal PIDs in distinct objects, pairs that differ only in
@@ -353,6 +416,10 @@ func checkDeliveries(rc *core.RunCtx, w *World, ops []sendOp, prop string, lossy
 
 func cfgRemote(cfg *simrt.Config, tier string) {
 	cfg.MaxSteps = 600_000
+	// experiment knob: measure the margin of the step budget on the unchanged tree
+	if d, _ := strconv.Atoi(os.Getenv("VERIF_STEPS_DIV")); d > 1 {
+		cfg.MaxSteps /= uint64(d)
+	}
 }
 
 // cfgRemoteSkip also lets the clock jump while tasks are runnable (stalls
